@@ -575,7 +575,20 @@ def gen_wtsizes(r, cid, nops, opts):
     return lines
 
 
-GENS = dict(wtsizes=gen_wtsizes, rawlru=gen_rawlru, rawfrom=gen_rawfrom, slru=gen_slru, twoq=gen_twoq, arc=gen_arc,
+def gen_putresult(r, cid, nops, opts):
+    """every pair of PutResult values over a two-element payload universe, and every clone"""
+    vals = ["P"] + ["U:%d" % a for a in (1, 2)] + ["E:%d:%d" % (a, b) for a in (1, 2) for b in (1, 2)] + \
+           ["X:%d:%d:%d" % (a, b, c) for a in (1, 2) for b in (1, 2) for c in (1, 2)]
+    lines = ["case %d putresult" % cid]
+    for a in vals:
+        lines.append("prclone %s" % a)
+        for b in vals:
+            lines.append("preq %s %s" % (a, b))
+    lines.append("end")
+    return lines
+
+
+GENS = dict(putresult=gen_putresult, wtsizes=gen_wtsizes, rawlru=gen_rawlru, rawfrom=gen_rawfrom, slru=gen_slru, twoq=gen_twoq, arc=gen_arc,
             wtinylfu=gen_wtinylfu, tinylfu=gen_tinylfu, sampled=gen_sampled)
 
 
